@@ -8,19 +8,19 @@ hooks = subprocess.run(["git", "-C", "/repo", "log", "--format=%h %s", "--grep=^
 claims = {
  "C01": ("S1 every stored *.piece hashes to its name and to a torrent hash; S2 every use as owned (Have/Bitfield/Piece frame, status Have, PieceDone, extractor read) follows such a write; S3 a piece assembled with a failed hash is not marked done and is fetched again. Seeded search over adversarial peer behaviours x interleavings x disk write faults.", "8 C01"),
  "C02": ("honest swarm => all files byte-identical on the simulated disk within 3600 virtual s, no panic, session alive; seeded search over geometry x piece distribution x segmentation/latency/yields x disconnects of non-essential peers.", "8 C02"),
- "C03": ("every listed file has exactly its bytes after a real download + real extraction; configuration dimension (piece length x file list) sampled, schedule adds nothing (stated).", "8 C03"),
+ "C03": ("every listed file has exactly its bytes after a real download + real extraction (piece lengths 1 B .. 2.2 MB, incl. values around the client's own 256 KiB default); for declared totals up to 2^33 the length the client assigns to every piece equals the geometry's (profile phantom-piece); configuration dimension sampled, schedule adds nothing (stated).", "8 C03"),
  "C04": ("every path created on the simulated disk resolves inside the session directory, for hostile name/path grammars; the simulated disk is the canary.", "8 C04"),
  "C06": ("rig A: frames returned = reference decode for every segmentation, prompt at every quiescent point, no panic, bounded buffer, malformed/truncated streams end in an error; rig D: the real task ends within 60 virtual s.", "8 C06"),
  "C08": ("no reply before a valid handshake on incoming connections, nothing after an invalid one (closed and forgotten within 60 s), own handshake exact, no piece data without a valid handshake; seeded search over handshake kinds x positions in a message history.", "8 C08"),
- "C09": ("every Piece frame matches an unanswered request, carries the stored bytes of an owned piece, stays in range, and is not sent while both wire and manager state say choked; no panic for any (index, begin, length).", "8 C09"),
+ "C09": ("every Piece frame matches an unanswered request, carries the stored bytes of an owned piece, stays in range, and is not sent while the wire state says choked (a block served in the lag before an Unchoke is accepted only if that Unchoke follows within 5 virtual s); no panic for any (index, begin, length), wherever it surfaces.", "8 C09"),
  "C10": ("per assignment epoch: requests name the piece, <= 16 KiB, inside the piece, never overlap; a further request follows each accepted block while blocks are unrequested; completion exactly when the last outstanding block arrived (reference model PieceRx).", "8 C10"),
  "C11": ("bitfield within [owned at handshake, verified at write]; every Have after verification; announcements are a gap-free run of the completion order, complete on unchoked settled connections.", "8 C11"),
  "C12": ("on every manager snapshot: Have monotone; Reserved => some connected un-choking peer is assigned the piece; assignments only for advertised, still lacking pieces; no manager panic. All inputs come from real connection tasks.", "8 C12"),
- "C13": ("every pick of the real chooser is a candidate of minimal availability in the state it was taken in; None iff no candidate.", "8 C13"),
+ "C13": ("every pick of the real chooser is a candidate of minimal availability in the state it was taken in; None iff no candidate; the availability records it uses equal the Bitfield/Have frames decoded on the live connections; no pick or Have-triggered assignment of a piece another un-choking peer is fetching outside end game.", "8 C13"),
  "C14": ("<= 10 regular + <= 1 optimistic unchoked in every snapshot; post-rotation slot rules with the client's own rates; Choke/Unchoke frames equal the flips of the client's state.", "8 C14"),
  "C18": ("every announce URL produced by the real RequestBuilder: host/port/path kept, existing query kept, exactly one info_hash that form-decodes to the 20 bytes, peer_id, port, left.", "8 C18"),
- "C19": ("after any scripted failure run + good reply the listed peers are dialled within 10 virtual s; never an unlisted address; a dial-in handshake is answered within 10 s at every position of the failure run; no panic.", "8 C19"),
- "C20": ("silent connection closed <= 361 s and released; connection with real-message gaps <= 119 s never closed for inactivity; client keep-alives <= 121 s apart.", "8 C20"),
+ "C19": ("after any scripted failure run + good reply (first and later ones) the listed peers the client is not connected to are dialled within 10 virtual s (staged by how busy the client is); never an unlisted address; a client left without connections and candidates announces again within 120 s; announcing never stops for longer than 3x its own retry pause; a dial-in handshake is answered within 10 s at every position of the failure run; no panic.", "8 C19"),
+ "C20": ("silent connection closed <= 361 s and its peer entry and reservation released (also judged without the kill request); connection with real-message gaps <= 119 s never closed for inactivity; client keep-alives <= 121 s apart on connections whose peer keeps reading.", "8 C20"),
 }
 notes = {
  "C03": "input/configuration property decided end-to-end through the simulator; the schedule dimension is vacuous here and the claim is worded accordingly",
